@@ -60,6 +60,20 @@ Definition applies (cond : option nat) (t : nat) : bool :=
   | Some c => Nat.eqb c t || implements t c || member_of t c
   end.
 
+(* ---- arguments the container does not declare: under an object type that defines the field, the
+   supplied arguments its definition does not name (checked on every evaluation of the selection,
+   against the object type it is evaluated in) ---- *)
+Definition declared_by (fd : fdef) (av : arg) : bool := existsb (fun d => Nat.eqb (a_name d) (fst av)) (f_args fd).
+Definition undeclared_args (t name : nat) (args : list arg) : list arg :=
+  match lookup t S with
+  | Some (DObject fs _) =>
+      match find_field name fs with
+      | Some fd => filter (fun av => negb (declared_by fd av)) args
+      | None => []
+      end
+  | _ => []
+  end.
+
 (* ---- arguments: each declared argument that the request supplies, variables substituted,
    coerced to the declared type; a required argument that is not supplied is an error ---- *)
 Definition spec_args (fid : nat) (fd : fdef) (args : list arg) (path : list pseg) : list (nat * value) * list err :=
@@ -247,6 +261,11 @@ with sem_field (fuel : nat) (obj : gv) (id : nat) (alias : option nat) (name : n
   | Datatypes.S fuel' =>
       let key := key_of alias name in
       let here := path ++ [PKey key] in
+      match undeclared_args t name args with
+      | (_ :: _) as bad =>
+          (* an argument the field does not declare: an error for each, no entry, nothing resolved *)
+          Done ([], map (fun _ => at_path here LOther EBadArg) bad, [])
+      | [] =>
       if Nat.eqb name TYPENAME then Done ([(key, RTypeName t)], [], [])
       else
         match get_field_def S t name with
@@ -282,6 +301,7 @@ with sem_field (fuel : nat) (obj : gv) (id : nat) (alias : option nat) (name : n
                 end
             end
         end
+      end
   end.
 
 End Spec.
@@ -315,14 +335,15 @@ Fixpoint nodup_nat (l : list nat) : bool :=
   match l with [] => true | x :: r => negb (existsb (Nat.eqb x) r) && nodup_nat r end.
 
 (* ---- static validity of documents with respect to arguments: no argument is supplied twice, and
-   every supplied argument is declared by every type that defines the field (the implementation
-   checks undeclared arguments only at a Field's first visit and only under object types — findings
-   F10 — so C01/C06 are stated for documents that satisfy this; C10 covers the others) ---- *)
+   every supplied argument is declared by every INTERFACE that defines the field.  (Under an object
+   type undeclared arguments are part of the specification above; the implementation has no check
+   under an interface-typed container - which only occurs for values whose Go type is bound to no
+   object type - so that case stays outside these theorems.) ---- *)
 Definition field_args_ok (S : schema) (name : nat) (args : list arg) : bool :=
   nodup_nat (map fst args) &&
   forallb (fun ttd =>
              match snd ttd with
-             | DObject fs _ | DInterface fs =>
+             | DInterface fs =>
                  match find_field name fs with
                  | Some fd => forallb (fun av => existsb (fun d => Nat.eqb (a_name d) (fst av)) (f_args fd)) args
                  | None => true
